@@ -21,7 +21,7 @@ theorem erase_sublist {ν : Type} (k : String) (m : Map String ν) : List.Sublis
     unfold Map.erase
     by_cases h : k' = k
     · simp only [h, if_true]; exact List.Sublist.cons _ (List.Sublist.refl _)
-    · simp only [h, if_false]; exact List.Sublist.cons₂ _ ih
+    · simp only [h, if_false]; exact List.Sublist.cons_cons _ ih
 
 theorem WF_erase {ν : Type} (k : String) {m : Map String ν} (h : Map.WF m) : Map.WF (Map.erase k m) :=
   List.Pairwise.sublist (erase_sublist k m) h
@@ -44,20 +44,13 @@ theorem insert_eq_self {ν : Type} (k : String) (v : ν) {m : Map String ν} (hw
     · simp only [h, if_false]
       have hg' : Map.get? r k = some v := by simpa [Map.get?, h] using hg
       by_cases hlt : KeyOrd.lt k k' = true
-      · -- `k` would sit before `k'`, but every key of `r` is after `k'`
-        exfalso
-        have hmem : k ∈ Map.keys r := Map.mem_keys_of_get? hg'
-        have hpw := (Map.WF_cons.mp hw).1
-        obtain ⟨e, he, hek⟩ := List.mem_map.mp hmem
-        have h1 : KeyOrd.lt k' e.1 = true := hpw e he
-        rw [hek] at h1
-        have := Map.lt_asymm' h1
-        rw [this] at hlt
-        exact absurd hlt (by simp)
-      · simp only [hlt, if_false]
-        have := ih (Map.WF_tail hw) hg'
-        unfold Map.insert at this
-        rw [this]
+      · -- `k` would sit before `k'`: then it has no entry at all
+        have := Map.get?_eq_none_of_lt hw hlt
+        rw [this] at hg
+        cases hg
+      · have hr := ih (Map.WF_tail hw) hg'
+        unfold Map.insert at hr
+        simp [hlt, hr]
 
 theorem WF_metaMerge (m md : Metadata) (h : Map.WF m) : Map.WF (metaMerge m md) := by
   unfold metaMerge
@@ -140,6 +133,19 @@ theorem foldT_after (t : Int) (cur : Option AcctRow) (mN mT : Metadata) (lb d : 
     simp [hdt, this]
   · simp [hdt]
 
+theorem upsertRow_none (fu : Option Int) (d : Int) (md : Metadata) :
+    upsertRow none fu d md =
+      { firstUsage := fu.getD d, insertionDate := d, updatedAt := d, metadata := metaMerge [] md,
+        revisions := [(d, metaMerge [] md)] } := rfl
+
+theorem upsertRow_some (r : AcctRow) (fu : Option Int) (d : Int) (md : Metadata) :
+    upsertRow (some r) fu d md =
+      if ((match fu with | some f => decide (f < r.firstUsage) | none => false) || !metaContains r.metadata md) = true then
+        { r with firstUsage := (match fu with | some f => if f < r.firstUsage then f else r.firstUsage | none => r.firstUsage),
+                 updatedAt := d, metadata := metaMerge r.metadata md,
+                 revisions := r.revisions ++ [(d, metaMerge r.metadata md)] }
+      else r := rfl
+
 /-- `upsertRow` (metadata `md`, date `d`) keeps the invariant, the folds advancing by `save md`. -/
 theorem AcctInv_upsert (t : Int) (cur : Option AcctRow) (mN mT : Metadata) (lb d : Int) (fu : Option Int)
     (md : Metadata) (hinv : AcctInv t cur mN mT lb) (hd : lb ≤ d) :
@@ -148,38 +154,168 @@ theorem AcctInv_upsert (t : Int) (cur : Option AcctRow) (mN mT : Metadata) (lb d
   have hT := foldT_after t cur mN mT lb d (.save md) hinv hd
   simp only [applyChange_save] at hT
   rw [hT]
+  have hinv0 := hinv
   obtain ⟨h0, hw, h⟩ := hinv
   have hw' := WF_metaMerge mN md hw
   cases cur with
   | none =>
     obtain ⟨h1, h2⟩ := h
     subst h1 h2
-    unfold upsertRow
+    rw [upsertRow_none]
     refine ⟨fun hdt => by simp [hdt], hw', rfl, ?_, ⟨[], rfl⟩, Int.le_refl _⟩
     unfold revisionAt
     by_cases hdt : d ≤ t <;> simp [hdt]
   | some r =>
     obtain ⟨h1, h2, h3, h4⟩ := h
-    unfold upsertRow
+    subst h1
+    rw [upsertRow_some]
     by_cases hchg : ((match fu with | some f => decide (f < r.firstUsage) | none => false) || !metaContains r.metadata md) = true
-    · simp only [hchg, if_true]
-      have := AcctInv_write t r mN mT lb d (metaMerge r.metadata md)
-        (match fu with | some f => if f < r.firstUsage then f else r.firstUsage | none => r.firstUsage)
-        ⟨h0, hw, h1, h2, h3, h4⟩ hd (by rw [h1]; exact hw')
-      rw [h1] at this
-      exact this
-    · simp only [hchg, if_false]
+    · rw [if_pos hchg]
+      exact AcctInv_write t r r.metadata mT lb d (metaMerge r.metadata md) _ hinv0 hd hw'
+    · rw [if_neg hchg]
       -- unchanged row: the metadata already contains `md`
       have hcont : metaContains r.metadata md = true := by
-        simp only [Bool.or_eq_true, Bool.not_eq_true', not_or, Bool.not_eq_true, Bool.not_eq_false'] at hchg
-        simpa using hchg.2
-      have heq : metaMerge mN md = mN := by rw [← h1]; exact metaMerge_eq_self _ _ (by rw [h1]; exact hw) hcont
-      rw [heq]
-      refine ⟨fun hdt => by simp [hdt], hw, h1, ?_, h3, by omega⟩
+        cases hc : metaContains r.metadata md with
+        | true => rfl
+        | false => simp [hc] at hchg
+      rw [metaMerge_eq_self _ _ hw hcont]
+      refine ⟨fun hdt => by simp [hdt], hw, rfl, ?_, h3, by omega⟩
       by_cases hdt : d ≤ t
       · simp only [hdt, if_true]
         obtain ⟨init, hi⟩ := h3
-        rw [hi, revisionAt_last init _ _ t (by omega), h1]
+        rw [hi, revisionAt_last init _ _ t (by omega)]
       · simp [hdt, h2]
+
+/-- The post-fix delete keeps the invariant, the folds advancing by `delete key`. -/
+theorem AcctInv_delete (t : Int) (r : AcctRow) (mN mT : Metadata) (lb d : Int) (key : String)
+    (hinv : AcctInv t (some r) mN mT lb) (hd : lb ≤ d) :
+    AcctInv t (some { r with metadata := r.metadata.erase key, updatedAt := d,
+                             revisions := r.revisions ++ [(d, r.metadata.erase key)] })
+      (mN.erase key) (if d ≤ t then mT.erase key else mT) d := by
+  have hT := foldT_after t (some r) mN mT lb d (.delete key) hinv hd
+  simp only [applyChange_delete] at hT
+  rw [hT]
+  have hinv0 := hinv
+  obtain ⟨_, hw, h1, _, _, _⟩ := hinv
+  subst h1
+  exact AcctInv_write t r r.metadata mT lb d (r.metadata.erase key) r.firstUsage hinv0 hd (WF_erase key hw)
+
+/-! ### one journal event -/
+
+/-- One event advances row and folds together. -/
+theorem AcctInv_step (t : Int) (a : String) (cur : Option AcctRow) (mN mT : Metadata) (lb : Int) (e : Event)
+    (hinv : AcctInv t cur mN mT lb) (hd : lb ≤ eventDate e)
+    (hrev : ∀ tx am, e = .committed tx am false → am.get? a = none) :
+    AcctInv t (acctStepV .current a cur e) (metaStep (.account a) none mN e)
+      (metaStep (.account a) (some t) mT e) (eventDate e) := by
+  cases e with
+  | reverted id d => exact AcctInv_mono t cur mN mT lb d hinv hd
+  | committed tx am up =>
+    simp only [eventDate] at hd
+    cases up with
+    | false =>
+      have hnone := hrev tx am rfl
+      have h1 : acctStepV .current a cur (.committed tx am false) = cur := by simp [acctStepV]
+      have h2 : ∀ T m, metaStep (.account a) T m (.committed tx am false) = m := by
+        intro T m; simp only [metaStep, hnone]; split <;> simp
+      rw [h1, h2, h2]
+      exact AcctInv_mono t cur mN mT lb _ hinv hd
+    | true =>
+      cases hget : am.get? a with
+      | none =>
+        have h2 : ∀ T m, metaStep (.account a) T m (.committed tx am true) = m := by
+          intro T m; simp only [metaStep, hget]; split <;> simp
+        rw [h2, h2]
+        by_cases hinv' : tx.involves a = true
+        · have h1 : acctStepV .current a cur (.committed tx am true) =
+              some (upsertRow cur (some tx.timestamp) tx.insertedAt []) := by
+            simp [acctStepV, hinv', hget]
+          rw [h1]
+          have := AcctInv_upsert t cur mN mT lb tx.insertedAt (some tx.timestamp) [] hinv hd
+          simpa [metaMerge, eventDate] using this
+        · have hc : am.contains a = false := by simp [Map.contains, hget]
+          have h1 : acctStepV .current a cur (.committed tx am true) = cur := by
+            simp [acctStepV, hinv', hc]
+          rw [h1]
+          exact AcctInv_mono t cur mN mT lb _ hinv hd
+      | some kv =>
+        have hc : am.contains a = true := by simp [Map.contains, hget]
+        have h1 : acctStepV .current a cur (.committed tx am true) =
+            some (upsertRow cur (some tx.timestamp) tx.insertedAt kv) := by
+          simp [acctStepV, hc, hget]
+        have hN : metaStep (.account a) none mN (.committed tx am true) = metaMerge mN kv := by
+          simp [metaStep, hget, applyChange_save]
+        have hTt : metaStep (.account a) (some t) mT (.committed tx am true) =
+            (if tx.insertedAt ≤ t then metaMerge mT kv else mT) := by
+          simp only [metaStep, hget, applyChange_save]
+          by_cases hdt : tx.insertedAt ≤ t <;> simp [hdt]
+        rw [h1, hN, hTt]
+        exact AcctInv_upsert t cur mN mT lb tx.insertedAt (some tx.timestamp) kv hinv hd
+  | metaWrite ev =>
+    obtain ⟨target, d, change⟩ := ev
+    simp only [eventDate] at hd
+    by_cases htgt : target = .account a
+    · subst htgt
+      cases change with
+      | save md =>
+        have h1 : acctStepV .current a cur (.metaWrite ⟨.account a, d, .save md⟩) = some (upsertRow cur none d md) := by
+          simp [acctStepV]
+        have hN : metaStep (.account a) none mN (.metaWrite ⟨.account a, d, .save md⟩) = metaMerge mN md := by
+          simp [metaStep, applyChange_save]
+        have hTt : metaStep (.account a) (some t) mT (.metaWrite ⟨.account a, d, .save md⟩) =
+            (if d ≤ t then metaMerge mT md else mT) := by
+          simp only [metaStep, applyChange_save]
+          by_cases hdt : d ≤ t <;> simp [hdt]
+        rw [h1, hN, hTt]
+        exact AcctInv_upsert t cur mN mT lb d none md hinv hd
+      | delete key =>
+        have hN : metaStep (.account a) none mN (.metaWrite ⟨.account a, d, .delete key⟩) = mN.erase key := by
+          simp [metaStep, applyChange_delete]
+        have hTt : metaStep (.account a) (some t) mT (.metaWrite ⟨.account a, d, .delete key⟩) =
+            (if d ≤ t then mT.erase key else mT) := by
+          simp only [metaStep, applyChange_delete]
+          by_cases hdt : d ≤ t <;> simp [hdt]
+        rw [hN, hTt]
+        cases cur with
+        | none =>
+          obtain ⟨_, _, h1, h2⟩ := hinv
+          subst h1 h2
+          have : acctStepV .current a none (.metaWrite ⟨.account a, d, .delete key⟩) = none := by simp [acctStepV]
+          rw [this]
+          refine ⟨fun _ => by simp [Map.erase], by simpa [Map.erase] using Map.WF_nil, by simp [Map.erase], ?_⟩
+          by_cases hdt : d ≤ t <;> simp [hdt, Map.erase]
+        | some r =>
+          have : acctStepV .current a (some r) (.metaWrite ⟨.account a, d, .delete key⟩) =
+              some { r with metadata := r.metadata.erase key, updatedAt := d,
+                            revisions := r.revisions ++ [(d, r.metadata.erase key)] } := by simp [acctStepV]
+          rw [this]
+          exact AcctInv_delete t r mN mT lb d key hinv hd
+    · have h2 : ∀ T m, metaStep (.account a) T m (.metaWrite ⟨target, d, change⟩) = m := by
+        intro T m; simp [metaStep, htgt]
+      have h1 : acctStepV .current a cur (.metaWrite ⟨target, d, change⟩) = cur := by
+        cases target with
+        | tx id => cases change <;> simp [acctStepV]
+        | account a' =>
+          have : a' ≠ a := fun h => htgt (by rw [h])
+          cases change <;> simp [acctStepV, this]
+      rw [h1, h2, h2]
+      exact AcctInv_mono t cur mN mT lb d hinv hd
+
+/-- The whole journal. -/
+theorem AcctInv_fold (t : Int) (a : String) (es : List Event) :
+    ∀ (cur : Option AcctRow) (mN mT : Metadata) (lb : Int), AcctInv t cur mN mT lb →
+      (∀ e ∈ es, lb ≤ eventDate e) → Chrono es → RevertsCarryNoMeta a es →
+      ∃ lb', AcctInv t (es.foldl (acctStepV .current a) cur) (es.foldl (metaStep (.account a) none) mN)
+        (es.foldl (metaStep (.account a) (some t)) mT) lb' := by
+  induction es with
+  | nil => intro cur mN mT lb h _ _ _; exact ⟨lb, h⟩
+  | cons e es ih =>
+    intro cur mN mT lb h hlb hch hrev
+    simp only [List.foldl_cons]
+    have hstep := AcctInv_step t a cur mN mT lb e h (hlb e List.mem_cons_self)
+      (fun tx am he => hrev tx am (by rw [he]; exact List.mem_cons_self))
+    have hch' := List.pairwise_cons.mp hch
+    exact ih _ _ _ _ hstep (fun x hx => hch'.1 x hx) hch'.2
+      (fun tx am hm => hrev tx am (List.mem_cons_of_mem _ hm))
 
 end Ledger.Reads
